@@ -808,18 +808,28 @@ class Manager:
         if code is not None:
             raise SystemExit(code)
 
+    def _stepTask(self, event, step, arg):
+        # Run one step of a generator handler of ``event``. Events fired by
+        # that step are effects of ``event``, exactly like the ones fired
+        # before the handler's first yield (see _fire).
+        self._currently_handling = event
+        try:
+            return step(arg)
+        finally:
+            self._currently_handling = None
+
     def processTask(self, event, task, parent=None):  # noqa
         # TODO: C901: This has a high McCabe complexity score of 16.
         # TODO: Refactor this method.
 
         value = None
         try:
-            value = next(task)
+            value = self._stepTask(event, next, task)
             if isinstance(value, CallValue):
                 # Done here, next() will StopIteration anyway
                 self.unregisterTask((event, task, parent))
                 # We are in a callEvent
-                value = parent.send(value.value)
+                value = self._stepTask(event, parent.send, value.value)
                 if isinstance(value, GeneratorType):
                     # We loose a yield but we gain one,
                     # we don't need to change
@@ -827,7 +837,7 @@ class Manager:
                     # The below code is delegated to handlers
                     # in the waitEvent generator
                     # self.registerTask((event, value, parent))
-                    task_state = next(value)
+                    task_state = self._stepTask(event, next, value)
                     task_state.task_event = event
                     task_state.task = value
                     task_state.parent = parent
@@ -840,7 +850,7 @@ class Manager:
                 event.waitingHandlers += 1
                 self.unregisterTask((event, task, None))
                 # First yielded value is always the task state
-                task_state = next(value)
+                task_state = self._stepTask(event, next, value)
                 task_state.task_event = event
                 task_state.task = value
                 task_state.parent = task
@@ -851,7 +861,7 @@ class Manager:
             elif isinstance(value, ExceptionWrapper):
                 self.unregisterTask((event, task, parent))
                 if parent:
-                    value = parent.throw(value.extract())
+                    value = self._stepTask(event, parent.throw, value.extract())
                     if value is not None:
                         value_generator = (val for val in (value,))
                         self.registerTask((event, value_generator, parent))
